@@ -46,6 +46,8 @@ def term(t, env, world):
         return term(t[1], env, world)[t[2]]
     if k == "call":
         return getattr(term(t[1], env, world), t[2])(*t[3])
+    if k == "callv":  # a call whose arguments are terms
+        return getattr(term(t[1], env, world), t[2])(*[term(a, env, world) for a in t[3]])
     if k == "lit":
         v = t[1]
         return list(v) if isinstance(v, tuple) else v
@@ -140,6 +142,11 @@ def term_vars(t):
         return {t[1]}
     if t[0] in ("attr", "idx", "call"):
         return term_vars(t[1])
+    if t[0] == "callv":
+        out = term_vars(t[1])
+        for a in t[3]:
+            out |= term_vars(a)
+        return out
     return set()
 
 
@@ -189,6 +196,8 @@ def show_term(t):
         return f"{show_term(t[1])}[{t[2]!r}]"
     if k == "call":
         return f"{show_term(t[1])}.{t[2]}({', '.join(map(repr, t[3]))})"
+    if k == "callv":
+        return f"{show_term(t[1])}.{t[2]}({', '.join(map(show_term, t[3]))})"
     if k == "lit":
         return repr(list(t[1]) if isinstance(t[1], tuple) else t[1])
     return repr(t)
